@@ -5,6 +5,7 @@ import (
 	"go/ast"
 	"go/token"
 	"go/types"
+	"strings"
 
 	"verif/engine/core"
 )
@@ -26,6 +27,7 @@ func init() {
 			{Name: "refcounter-swap-wrong-way", File: "util/refcounter/refcounter_uint32.go", Old: "\t\t\tcopy(itemList[i:], itemList[i+1:])\n\t\t\titemList = itemList[:]\n\t\t\tr.items = itemList[:len(itemList)-1]\n", New: "\t\t\tlast := len(itemList) - 1\n\t\t\titemList[last] = itemList[i]\n\t\t\tr.items = itemList[:last]\n", Expect: "refcounter-removes-matched-entry"},
 			{Name: "refactor-refcounter-swap-with-last", Silent: true, File: "util/refcounter/refcounter_uint32.go", Old: "\t\t\tcopy(itemList[i:], itemList[i+1:])\n\t\t\titemList = itemList[:]\n\t\t\tr.items = itemList[:len(itemList)-1]\n", New: "\t\t\tlast := len(itemList) - 1\n\t\t\titemList[i] = itemList[last]\n\t\t\tr.items = itemList[:last]\n"},
 			{Name: "refactor-refcounter-append-delete", Silent: true, File: "util/refcounter/refcounter_uint32.go", Old: "\t\t\tcopy(itemList[i:], itemList[i+1:])\n\t\t\titemList = itemList[:]\n\t\t\tr.items = itemList[:len(itemList)-1]\n", New: "\t\t\tr.items = append(itemList[:i], itemList[i+1:]...)\n"},
+			{Name: "initial-dump-without-the-table-lock", File: "routingtable/adjRIBIn/adj_rib_in.go", Old: "func (a *AdjRIBIn) UpdateNewClient(client routingtable.RouteTableClient) error {\n\ta.mu.RLock()\n\tdefer a.mu.RUnlock()\n", New: "func (a *AdjRIBIn) UpdateNewClient(client routingtable.RouteTableClient) error {\n\ta.mu.RLock()\n\ta.mu.RUnlock()\n", Expect: "hidden-gate"},
 			{Name: "asloop-skips-sets", File: "routingtable/adjRIBIn/adj_rib_in.go", Old: "\tfor _, pathSegment := range *p.BGPPath.ASPath {\n", New: "\tfor _, pathSegment := range *p.BGPPath.ASPath {\n\t\tif pathSegment.Type != 2 {\n\t\t\tcontinue\n\t\t}\n", Expect: "eligibility-conditions"},
 			{Name: "otc-peer-any-asn", File: "routingtable/adjRIBIn/adj_rib_in.go", Old: "if pr == packet.PeerRoleRolePeer && path.BGPPath.BGPPathA.OnlyToCustomer != a.sessionAttrs.PeerASN {", New: "if pr == packet.PeerRoleRoleRS && path.BGPPath.BGPPathA.OnlyToCustomer != a.sessionAttrs.PeerASN {", Expect: "otc-ingress-table"},
 			{Name: "dispose-removes-clusterid-unconditionally", File: "protocols/bgp/server/fsm_address_family.go", Old: "\tif f.fsm.peer.routeReflectorClient {\n\t\tf.fsm.peer.vrf.RemoveContributingClusterID(f.fsm.peer.clusterID)\n\t}\n", New: "\tf.fsm.peer.vrf.RemoveContributingClusterID(f.fsm.peer.clusterID)\n", Expect: "loop-registration-paired"},
@@ -124,6 +126,39 @@ func runC06(c *core.Ctx) {
 		})
 		proc := core.Calls(f.Pkg, f.Decl.Body, core.KeyIs(processKey))
 		c.Check(okStore && len(proc) == 1 && storePos < proc[0].Pos(), "hidden-gate", f.Name()+" stores validatePath's verdict before the policy runs", f.Decl.Pos(), "addPath does not record validatePath's verdict in HiddenReason before the gate")
+	}
+
+	// (1c) the verdict is read and the path handed out in one critical section with the code that stores it: addPath puts a path
+	// into the table BEFORE it records the verdict, so anything that walks the table and hands paths out must exclude it —
+	// at every emission in a method of AdjRIBIn the Adj-RIB-In lock is held (locally, or by every caller)
+	{
+		lp := core.BuildLockProg(p, func(f *core.Fn) bool { return strings.HasSuffix(f.Pkg.PkgPath, adjIn) })
+		entry := lp.EntryMust()
+		muF := p.Field(adjIn, "AdjRIBIn", "mu")
+		nEm := 0
+		for _, f := range p.MethodsOf(adjIn, "AdjRIBIn") {
+			if f.Decl.Body == nil || muF == nil {
+				continue
+			}
+			for k, call := range clientCalls(f, "AddPath", "AddPathInitialDump", "ReplacePath") {
+				nEm++
+				held := false
+				_ = k
+				if ls := lp.Sets[f]; ls != nil {
+					for h := range ls.MustAt(call) {
+						if hc := lp.KeyClass[f][h]; hc != nil && core.ClassKey2(hc) == core.ClassKey2(muF) {
+							held = true
+						}
+					}
+				}
+				if entry[f][core.ClassKey2(muF)] {
+					held = true
+				}
+				c.Check(held, "hidden-gate", fmt.Sprintf("%s hands a path out with the Adj-RIB-In lock held (emission #%d)", f.Name(), k+1), call.Pos(),
+					"a stored path is tested for eligibility and handed to a client without the Adj-RIB-In lock: addPath stores a path in the table before it records the verdict, so a dump that runs concurrently reads an ineligible path that is not yet marked hidden and installs it in the Loc-RIB")
+			}
+		}
+		c.Check(nEm >= 3, "hidden-gate", "emissions of package adjRIBIn checked for the lock", token.NoPos, fmt.Sprintf("found %d", nEm))
 	}
 
 	// every stored path gets a verdict: from each store into the table, no return is reachable without the verdict assignment
